@@ -35,6 +35,8 @@ type srvCfg struct {
 	yields     bool // park serve loops at yield sites
 	extraReg   bool // register unrelated handlers while the server runs
 	cnTasks    bool // CloseNotify requested from other goroutines
+	deferPct   int  // % of answers built and written later by another goroutine
+	doubleConn bool // two connections may reach the listener before it is served
 }
 
 type plan struct {
@@ -42,6 +44,7 @@ type plan struct {
 	answer bool
 	rc     uint32
 	panics bool
+	later  bool // the answer is built and written later, from another goroutine
 }
 
 type sentMsg struct {
@@ -114,6 +117,7 @@ type srvWorld struct {
 	reregLeft int
 	extraRegLeft int
 	cnLeft int
+	deferred []*invocation
 	yieldsOff atomic.Bool
 	closing   atomic.Bool
 	trailingHandled int
@@ -198,7 +202,11 @@ func (w *srvWorld) handler(hname string) diam.HandlerFunc {
 		if pl.park {
 			<-inv.rel // accounted under w.mu above; un-accounted by the releaser
 		}
-		if pl.answer {
+		if pl.answer && pl.later && !pl.panics {
+			w.mu.Lock()
+			w.deferred = append(w.deferred, inv)
+			w.mu.Unlock()
+		} else if pl.answer {
 			a := m.Answer(pl.rc)
 			if len(m.AVP) > 0 {
 				a.NewAVP(avpSimOctets, 0, 0, datatype.OctetString(m.AVP[0].Data.Serialize()))
@@ -346,6 +354,9 @@ func (w *srvWorld) genConn(i int, dialled, late bool) *peerConn {
 		sm.plan.park = t.Draw(100) >= 100-cfg.parkPct
 		if isReq {
 			sm.plan.answer = t.Draw(100) >= 100-cfg.answerPct
+		}
+		if sm.plan.answer && cfg.deferPct > 0 {
+			sm.plan.later = t.Draw(100) >= 100-cfg.deferPct
 		}
 		if sm.plan.answer {
 			switch t.Pick(3, 3, 1, 1, 1) {
@@ -544,6 +555,10 @@ func (w *srvWorld) runInner() {
 	acceptErrsLeft := 0
 	if cfg.acceptErrs {
 		acceptErrsLeft = t.Draw(5)
+		if t.Chance(1, 6) {
+			acceptErrsLeft = 8 + t.Draw(7) // a long run of consecutive temporary errors
+			e.Probe("long-accept-error-run")
+		}
 	}
 	if !w.quiesceAndCheck() {
 		return
@@ -601,6 +616,12 @@ func (w *srvWorld) runInner() {
 				}
 			}
 		}
+		w.mu.Lock()
+		nDef := len(w.deferred)
+		w.mu.Unlock()
+		if nDef > 0 {
+			acts = append(acts, act{kind: "deferred-answer", w: 4})
+		}
 		if w.extraRegLeft > 0 && nActive == 0 && len(w.yielded) == 0 {
 			acts = append(acts, act{kind: "reg-extra", w: 2})
 		}
@@ -621,6 +642,16 @@ func (w *srvWorld) runInner() {
 		switch a.kind {
 		case "connect":
 			w.connect(a.pc)
+			if cfg.doubleConn && !a.pc.dialled && t.Chance(1, 3) {
+				// a second connection reaches the listener before the first one is being served
+				for _, pc := range w.conns {
+					if !pc.connected && !pc.dialled && !pc.late {
+						w.connect(pc)
+						e.Probe("back-to-back-accept")
+						break
+					}
+				}
+			}
 		case "deliver":
 			pc := a.pc
 			rem := pc.limit() - pc.sent
@@ -690,6 +721,10 @@ func (w *srvWorld) runInner() {
 			e.Act("cn-task", "%s", pc.name)
 			e.Probe("closenotify-from-task")
 			if !w.regTask(func() { dc.(diam.CloseNotifier).CloseNotify() }) {
+				return
+			}
+		case "deferred-answer":
+			if !w.flushDeferred(1) {
 				return
 			}
 		case "reg-extra":
@@ -963,7 +998,14 @@ func (w *srvWorld) drain() {
 		w.mu.Lock()
 		parked := append([]*invocation{}, w.parked...)
 		yl := append([]*yieldPark{}, w.yielded...)
+		nDef := len(w.deferred)
 		w.mu.Unlock()
+		if nDef > 0 {
+			if !w.flushDeferred(nDef) {
+				return
+			}
+			progress = true
+		}
 		for _, inv := range parked {
 			w.release(inv)
 			progress = true
@@ -1098,13 +1140,40 @@ func (w *srvWorld) finalChecks() {
 				break
 			}
 		}
-		if len(pc.answers) != len(want) {
-			e.Fail(cfg.prop+"/answer-count", "%s: %d answers reached the peer, %d requests were answered by handlers (faulty=%v)", pc.name, len(pc.answers), len(want), pc.faulty)
-			return
+		// pair answers with requests through the echoed marker (deferred answers leave out of order)
+		byMarker := map[string]*sentMsg{}
+		for _, sm := range want {
+			byMarker[string(sm.ref.AVPs[0].Data)] = sm
 		}
+		answered := map[*sentMsg]bool{}
 		for i, a := range pc.answers {
-			if d := mirrorDiff(want[i], a); d != "" {
+			mk := a.find(avpSimOctets)
+			var req *sentMsg
+			if mk != nil {
+				req = byMarker[string(mk.Data)]
+			}
+			if req == nil {
+				// no request carries this marker: pair by position so that the header diff names what is wrong
+				if i < len(want) {
+					req = want[i]
+				} else {
+					e.Fail(cfg.prop+"/answer-count", "%s: answer %d matches no answered request", pc.name, i)
+					return
+				}
+			}
+			if answered[req] {
+				e.Fail(cfg.prop+"/answer-count", "%s: a request was answered twice", pc.name)
+				return
+			}
+			answered[req] = true
+			if d := mirrorDiff(req, a); d != "" {
 				e.Fail(cfg.prop+"/answer-mismatch/"+d[:strings.IndexByte(d, ':')], "%s answer %d: %s", pc.name, i, d)
+				return
+			}
+		}
+		for _, sm := range want {
+			if !answered[sm] && !(sm.plan.later && pc.sc.Closed()) {
+				e.Fail(cfg.prop+"/answer-count", "%s: %d answers reached the peer, %d requests were answered by handlers (faulty=%v)", pc.name, len(pc.answers), len(want), pc.faulty)
 				return
 			}
 		}
@@ -1344,6 +1413,37 @@ func (w *srvWorld) unyield(yp *yieldPark) {
 	w.e.Act("unyield", "%s", yp.site)
 	w.e.ParkEnd(true)
 	close(yp.ch)
+}
+
+// flushDeferred builds and writes up to n answers that handlers left for later.
+func (w *srvWorld) flushDeferred(n int) bool {
+	for i := 0; i < n; i++ {
+		w.mu.Lock()
+		if len(w.deferred) == 0 {
+			w.mu.Unlock()
+			return true
+		}
+		inv := w.deferred[0]
+		w.deferred = w.deferred[1:]
+		var pl plan
+		if inv.conn >= 0 && inv.conn < len(w.conns) && inv.seq >= 0 && inv.seq < len(w.conns[inv.conn].msgs) {
+			pl = w.conns[inv.conn].msgs[inv.seq].plan
+		}
+		w.mu.Unlock()
+		w.e.Act("deferred-answer", "c%d/m%d", inv.conn, inv.seq)
+		w.e.Probe("deferred-answer")
+		ok := w.regTask(func() {
+			a := inv.m.Answer(pl.rc)
+			if len(inv.m.AVP) > 0 {
+				a.NewAVP(avpSimOctets, 0, 0, datatype.OctetString(inv.m.AVP[0].Data.Serialize()))
+			}
+			_, inv.writeErr = a.WriteTo(inv.c)
+		})
+		if !ok {
+			return false
+		}
+	}
+	return true
 }
 
 // regTask performs a registration on its own goroutine (it takes the mux write
